@@ -224,11 +224,13 @@ func runC05(c C05Case) (res c05result) {
 		}(ai, a)
 	}
 	// witness traffic
-	pid := uint16(0)
+	// the witness publisher numbers its packets downwards from 60000, so that its identifiers
+	// never coincide with those the broker assigns on the subscribers' connections
+	pid := uint16(60001)
 	for n := 1; n <= c.NMsgs; n++ {
 		pp := &codec.Packet{Type: codec.PUBLISH, QoS: c.WitnessQoS, Topic: []byte(witnessTopic), Payload: witnessPayloadPad(n, c.WitnessPad)}
 		if c.WitnessQoS > 0 {
-			pid++
+			pid--
 			pp.PacketID = pid
 		}
 		if err := Wp.SendRawTimeout(codec.Encode(pp), wire.DefaultWait); err != nil {
@@ -258,7 +260,30 @@ func runC05(c C05Case) (res c05result) {
 		return c05result{Fail: x + " (in production the connection handler runs without recover: the broker process dies)"}
 	}
 	// (2) both witness connections still open and answering
-	if _, err := Wp.Barrier(); err != nil {
+	wprx, err := Wp.Barrier()
+	if err == nil && c.WitnessQoS > 0 {
+		// what the witness publisher was sent: acknowledgements of its own packets, nothing else
+		acked := map[uint16]int{}
+		for _, r := range wprx {
+			switch r.P.Type {
+			case codec.PUBACK, codec.PUBREC, codec.PUBCOMP:
+				if r.P.PacketID > 60000 || int(r.P.PacketID) <= 60000-c.NMsgs {
+					return c05result{Fail: fmt.Sprintf("the witness publisher received %s for packet identifier %d, which it never used (it numbered its %d packets from 60000 downwards)", codec.TypeName(r.P.Type), r.P.PacketID, c.NMsgs)}
+				}
+				if r.P.Type == codec.PUBACK {
+					acked[r.P.PacketID]++
+				}
+			}
+		}
+		if c.WitnessQoS == 1 {
+			for n := 1; n <= c.NMsgs; n++ {
+				if k := acked[uint16(60001-n)]; k != 1 {
+					return c05result{Fail: fmt.Sprintf("the witness publisher's QoS 1 PUBLISH number %d (identifier %d) was acknowledged %d times", n, 60001-n, k)}
+				}
+			}
+		}
+	}
+	if err != nil {
 		if err == wire.ErrTimeout {
 			return c05hang(res, "witness publisher got no PINGRESP")
 		}
@@ -292,6 +317,24 @@ func runC05(c C05Case) (res c05result) {
 			return c05hang(res, "the witness subscribed to '#' got no PINGRESP")
 		}
 		return c05result{Fail: fmt.Sprintf("the connection of the witness subscribed to '#' was closed by the broker (%v; stream error %v) although only the attacker misbehaved", err, Wall.StreamErr())}
+	}
+	// what an attacker's valid packets published reaches the subscriber of everything at most once each
+	attCopies := map[string]int{}
+	for _, r := range rxa {
+		if r.P.Type == codec.PUBLISH && bytes.HasPrefix(r.P.Payload, []byte("ATT")) {
+			if i := bytes.IndexByte(r.P.Payload, ':'); i > 0 && i < 12 {
+				attCopies[string(r.P.Payload[:i])]++
+			}
+		}
+	}
+	flipped := false
+	for _, a := range c.Attackers {
+		flipped = flipped || strings.HasPrefix(a.Kind, "bit-flips")
+	}
+	for k, v := range attCopies {
+		if v > 1 && !flipped {
+			return c05result{Fail: fmt.Sprintf("the witness subscribed to '#' received %d copies of message %s, which an attacker's connection published once", v, k)}
+		}
 	}
 	n = 0
 	for _, r := range rxa {
@@ -435,7 +478,16 @@ func genAttacker(t *rapid.T, c *C05Case, ai int) Attacker {
 		if q > 0 {
 			pp.PacketID = uint16(10 + i)
 		}
+		if len(pp.Payload) >= 16 {
+			copy(pp.Payload, fmt.Sprintf("ATT%d.%d:", ai, i)) // names the message for the witness subscribed to everything
+		}
 		pk = append(pk, codec.Encode(pp))
+		if q == 2 && rapid.IntRange(0, 3).Draw(t, "rel") > 0 {
+			// the exchange is completed, and the PUBREL possibly repeated (as after a lost PUBCOMP)
+			for r, m := 0, 1+rapid.SampledFrom([]int{0, 0, 1, 2}).Draw(t, "relagain"); r < m; r++ {
+				pk = append(pk, codec.Encode(&codec.Packet{Type: codec.PUBREL, PacketID: pp.PacketID}))
+			}
+		}
 	}
 	a.Origin = "valid session"
 	limit := c.BufSize
